@@ -241,8 +241,15 @@ def known_findings(prop):
 
 
 def write_evidence(prop, tier, seed, coverage, assumptions, wall, violations):
+    level = "proof"
+    if coverage.get("discharged", 0) < 1:
+        # nothing of the proof checks on this tree (a violation is being reported): what is left is the exploration
+        level = "exploration"
+        coverage = dict(coverage)
+        coverage["proof_obligations"] = coverage.pop("obligations", 0)
+        coverage["proof_discharged"] = coverage.pop("discharged", 0)
     ev = {
-        "property_id": prop, "tier": tier, "seed": seed, "level": "proof",
+        "property_id": prop, "tier": tier, "seed": seed, "level": level,
         "coverage": coverage, "assumptions": assumptions, "wall_s": round(wall, 2), "violations": violations,
     }
     os.makedirs(os.path.join(OUT, "evidence"), exist_ok=True)
